@@ -117,6 +117,12 @@ class Run:
 
     def branch(self, c):
         i = len(self.decisions)
+        if i > self.explorer.max_depth:
+            # a loop whose trip count is symbolic and that carries no contract (`while i < n`, recursion) unrolls
+            # without end along the always-feasible side: give up on the whole exploration
+            raise Undecided("more than %d decisions on one path (unbounded loop or recursion without a contract?)" % self.explorer.max_depth)
+        if time.time() > self.explorer.deadline:
+            raise Undecided("exploration budget of %d s exhausted" % self.explorer.budget_s)
         if i < len(self.prefix):
             d = self.prefix[i]
         else:
@@ -226,11 +232,14 @@ class Run:
 
 
 class Explorer:
-    def __init__(self, props=(), branch_timeout_ms=4000, max_paths=400):
+    def __init__(self, props=(), branch_timeout_ms=4000, max_paths=400, max_depth=250, budget_s=600):
         self.props = props
         self.branch_timeout_ms = branch_timeout_ms
         self.work = []
         self.max_paths = max_paths
+        self.max_depth = max_depth
+        self.budget_s = budget_s
+        self.deadline = time.time() + budget_s
 
     def push(self, prefix):
         self.work.append(prefix)
@@ -239,6 +248,7 @@ class Explorer:
         """thunk(run) executes the function under contract and emits obligations.
         Returns the list of PathResult."""
         self.work = [[]]
+        self.deadline = time.time() + self.budget_s
         results = []
         n = 0
         while self.work:
